@@ -196,7 +196,11 @@ def run_solve_purity(comp, storage, seed, tid):
     else:
         raw_pen = P.WeightedL1GroupL2(al, gw, wts, ptr, idx)
         arrays.update(weights_groups=gw, weights_features=wts, grp_ptr=ptr, grp_indices=idx)
-    Xs = sp.csc_matrix(X) if storage == "csc" else X
+    if storage == "csc_unsorted":
+        from .. import solve as SV
+        Xs = SV.as_rep(X, "csc_unsorted")          # a valid CSC matrix whose row indices are not sorted
+    else:
+        Xs = sp.csc_matrix(X) if storage == "csc" else X
     T = () if y.ndim == 1 else (y.shape[1],)
     fi = s in ("AndersonCD", "ProxNewton", "GroupBCD", "MultiTaskBCD")
     w0 = np.zeros((p + int(fi),) + T)
@@ -233,7 +237,7 @@ def run_solve_purity(comp, storage, seed, tid):
                 df = None if raw_df is None else skl.compiled_clone(raw_df)
                 pen = skl.compiled_clone(raw_pen)
                 if df is not None and hasattr(df, "initialize") and s in ("ProxNewton", "FISTA", "LBFGS", "PDCD_WS"):
-                    if storage == "csc" and hasattr(df, "initialize_sparse"):
+                    if storage.startswith("csc") and hasattr(df, "initialize_sparse"):
                         df.initialize_sparse(Xs.data, Xs.indptr, Xs.indices, y)
                     else:
                         df.initialize(X, y)
@@ -257,6 +261,30 @@ def run_solve_purity(comp, storage, seed, tid):
                 else:
                     df.initialize(X, y)
             fresh = np.array(slv2.solve(Xs, y, df, pen)[0], dtype=float, copy=True)
+            # the SAME solver object on a design buffer refilled in place (same id, same shape, other numbers):
+            # nothing remembered from the earlier solves may leak into this one
+            X2 = np.asfortranarray(X * rng.uniform(0.5, 3.0, p) + 0.3 * rng.standard_normal(X.shape))
+            if storage.startswith("csc"):
+                A2 = sp.csc_matrix(X2)
+                if storage == "csc_unsorted":
+                    from .. import solve as SV
+                    A2 = SV.as_rep(X2, "csc_unsorted")
+                Xs.data[:] = A2.data
+            else:
+                np.copyto(Xs, X2)
+
+            def solve_on(slv_):
+                df_ = None if raw_df is None else skl.compiled_clone(raw_df)
+                pen_ = skl.compiled_clone(raw_pen)
+                if df_ is not None and hasattr(df_, "initialize") and s in ("ProxNewton", "FISTA", "LBFGS", "PDCD_WS"):
+                    if storage.startswith("csc") and hasattr(df_, "initialize_sparse"):
+                        df_.initialize_sparse(Xs.data, Xs.indptr, Xs.indices, y)
+                    else:
+                        df_.initialize(X2, y)
+                return np.array(slv_.solve(Xs, y, df_, pen_)[0], dtype=float, copy=True)
+            third = solve_on(slv)
+            rng2 = np.random.default_rng(5)
+            fresh3 = solve_on(make()[0])
     except Exception as e:  # noqa: BLE001
         exc = (type(e).__name__, str(e)[:200])
     f.meta["exc"] = exc
@@ -265,6 +293,8 @@ def run_solve_purity(comp, storage, seed, tid):
         tol = 1e-7 * max(1.0, float(np.abs(fresh).max()))
         f.le("resolve_same_as_fresh", float(np.max(np.abs(results[1] - fresh))), tol)
         f.le("resolve_same_as_first", float(np.max(np.abs(results[1] - results[0]))), tol)
+        f.le("refilled_same_as_fresh", float(np.max(np.abs(third - fresh3))),
+             1e-7 * max(1.0, float(np.abs(fresh3).max())))
     return f.trace()
 
 
@@ -272,8 +302,10 @@ def solve_purity_binding(ck, tier, seed):
     items = []
     tid = 800000
     for comp in SOLVE_COMPS:
-        for st in ("dense", "csc"):
-            if st == "csc" and comp[0] in ("PDCD_WS",) or (st == "csc" and comp[1] == "Pinball"):
+        for st in ("dense", "csc", "csc_unsorted"):
+            if st != "dense" and (comp[0] in ("PDCD_WS", "GroupProxNewton") or comp[1] == "Pinball"):
+                continue
+            if st == "csc_unsorted" and comp[0] not in ("AndersonCD", "ProxNewton", "FISTA", "GroupBCD"):
                 continue
             tid += 1
             items.append((comp, st, seed, tid))
